@@ -115,6 +115,10 @@ def query_features(ir):
                         f.add("quantifier_under_compound_negation")
                 if n["x"]["c"] == "exists" and _has_pred(n["x"]["x"]):
                     f.add("forall_with_predicate")  # evaluated as for_all(v, not_(c))
+        if k == "not" and n["x"]["c"] in ("and", "or") and '"share"' in json.dumps(n["x"]):
+            # an expression object with several occurrences, one of them below a negated and_/or_ (which the engine
+            # may rebuild with De Morgan's law)
+            f.add("shared_below_compound_negation")
         if k in ("pred", "symfn"):
             args = n["args"] if k == "pred" else list(n["kw"].values())
             seen = [term_refs(a) for a in args]
@@ -133,6 +137,9 @@ def query_features(ir):
                         f.add("forall_with_predicate")
             if k == "forall" and _has_pred(n["x"]):
                 f.add("forall_with_predicate")
+            if k == "forall" and any(m["c"] == "or" and or_is_union(ir, m) for m in walk_conds(n["x"])):
+                # an or_ over operands with different variable sets can hold without binding all outer variables
+                f.add("union_inside_forall")
             if k == "forall" and any(r[0] == "dvar" and not ir["dvars"][r[1]].get("local") for r in cond_refs(n["x"])):
                 f.add("forall_outer_flatten")
             for loc in n["locals"]:
